@@ -553,12 +553,12 @@ theorem c08_runner_safe_partial (sem : Sem σ δ) (s : RState σ δ) (t : Int) (
 
 /-! ## Non-vacuity -/
 
-/-- A toy application: two drivers (driver 0 fails every `write_outputs` from its third one on;
-the environment counts driver calls), one program that faults with `DivisionByZero` when the
+/-- A toy application: two drivers (driver 0 fails every `write_outputs` once the environment —
+it counts driver calls — has reached 10, driver 1 every `read_inputs` once it has reached 100), one program that faults with `DivisionByZero` when the
 variable (a counter) is 2. -/
 def toy : Sem Nat Nat where
   nDrivers := 2
-  drvRead := fun _ env img => (env + 1, img, none)
+  drvRead := fun d env img => (env + 1, img, if d = 1 ∧ env ≥ 100 then some (.ioDriverRead 1) else none)
   drvWrite := fun d env _ => (env + 1, if d = 0 ∧ env ≥ 10 then some (.ioDriverWrite 0) else none)
   latch := fun _ st => (st, none)
   plan := fun _ st => (st, [0], none)
@@ -597,6 +597,38 @@ example : (∀ op ∈ [Op.cycle, .advance 5, .watchdog, .cycle, .setPolicy .halt
 
 example : cyclePhases toy = [phaseRead toy, phaseDebug, phaseForce, phaseLatch toy] ++ phaseTasks toy ::
     [phasePublish toy, phaseForce, phaseWrite toy, phasePersist toy] := rfl
+
+/-- Hypotheses of `c08_fault_sources`: in the third cycle the four phases before the task phase
+succeed and the task phase fails. -/
+example :
+    let s3 := run toy toyState [.cycle, .cycle]
+    let pre : List (Phase Nat Nat) := [phaseRead toy, phaseDebug, phaseForce, phaseLatch toy]
+    s3.faulted = false ∧ (runPhases pre s3).err = none ∧
+    (phaseTasks toy (runPhases pre s3).st).err = some .divisionByZero := by
+  intro s3 pre
+  exact ⟨rfl, rfl, rfl⟩
+
+/-- Hypotheses of `c08_source_program`, `c08_source_driver_read`, `c08_source_driver_write`. -/
+example :
+    (runPlan toy 0 [0] 1).2.2 = none ∧ (toy.exec 0 0 (runPlan toy 0 [0] 1).1).2.2 = some .divisionByZero ∧
+    (readDrivers toy [0] 100 []).err = none ∧
+    (toy.drvRead 1 (readDrivers toy [0] 100 []).env (readDrivers toy [0] 100 []).img).2.2 = some (.ioDriverRead 1) ∧
+    (writeDrivers toy [1] 10 []).err = none ∧
+    (toy.drvWrite 0 (writeDrivers toy [1] 10 []).env []).2 = some (.ioDriverWrite 0) :=
+  ⟨rfl, rfl, rfl, rfl, rfl, rfl⟩
+
+/-- Hypotheses of `c08_safe_image_all` (a fitting, pairwise non-overlapping map), of
+`c08_no_safe_state`, `c08_restart_clears` and `c08_fault_op_safe`. -/
+example :
+    let safe : List (Addr × Value) :=
+      [(toyAddr, .byte 90),
+       ({ area := .output, size := .bit, byte := 0, bit := 3, path := [0], wildcard := false }, .bool true),
+       ({ area := .output, size := .bit, byte := 0, bit := 4, path := [0], wildcard := false }, .bool false),
+       ({ area := .output, size := .word, byte := 4, bit := 0, path := [4], wildcard := false }, .word 4660)]
+    (∀ p ∈ safe, fits p.1 p.2 = true) ∧ safe.Pairwise (fun p q => indep p.1 q.1 = true) ∧
+    (FaultDecision.fromFaultPolicy .halt).applySafeState = false ∧ Op.resets (.restart .warm) = true ∧
+    toyState.wdAction ≠ .restart ∧ toyState.policy = .safeHalt := by
+  decide
 
 /-- The resource thread on the toy application: it runs two cycles, ends in `Faulted` with
 `DivisionByZero` in the third although five were allowed, and the safe value is in the image. -/
